@@ -253,6 +253,10 @@ def step (st : St) (ws : List String) : St × String :=
       let f := fuelOf st
       let s := State.reindexAll (worldOf st.defs) Gen.c05SchemaVersion (f * f) st.s (sortBy (fun a b => decide (a ≤ b)) st.s.src)
       ({ st with s := s }, if s.needs.isEmpty then "ok" else "needed")
+    | ["reindexlive"] =>
+      let f := fuelOf st
+      let s := State.reindexLive (worldOf st.defs) Gen.c05SchemaVersion (f * f) st.s (sortBy (fun a b => decide (a ≤ b)) st.s.src)
+      ({ st with s := s }, if s.needs.isEmpty then "ok" else "needed")
     | ["obs"] =>
       match st.s.observe (ids st) (pnIds st) (fuelOf st) with
       | some o => (st, obsStr o)
